@@ -22,7 +22,7 @@ const char *MC_RULE =
 const char *MC_ASSUME[] = {"G_geo for components; ledger allocator through H3_ALLOC_PREFIX", NULL};
 const char *MC_CTR_NAMES[] = {"sets", "skipped_polar", "oracle_unavailable", "sets_with_holes", "multi_component_sets", "loops_checked", "polar_sets_error", "polar_sets_success", "bad_sets_error", "bad_sets_success", NULL};
 const char *MC_MAX_NAMES[] = {"area_rel_diff", "vertex_offset_rad", NULL};
-enum { OP_SET, OP_POLAR, OP_BAD };
+enum { OP_SET, OP_POLAR, OP_BAD, OP_BAND };
 static OGraph G;
 static int G_init;
 #define MAXS 512
@@ -44,7 +44,7 @@ static void op_set(const McArg *a) {
     static int bd[4096];
     if (!G_init) og_init(&G, 1 << 16), G_init = 1;
     if (G.n > 2000000) og_clear(&G);
-    int R = pat == 4 ? 3 * k + 3 : pat == 9 ? 8 : k + 1;
+    int R = pat == 4 ? 3 * k + 3 : pat == 9 ? 8 : pat == 11 ? 6 : k + 1;
     int n = og_ball(&G, origin, R, bc, bd, 4096);
     if (n < 0) {
         mc_ctr(2, 1);
@@ -63,7 +63,7 @@ static void op_set(const McArg *a) {
             if (bd[i] == 2 * k + 2) far = bc[i];
     for (int i = 0; i < n && ns < MAXS; i++) {
         int d = bd[i], keep = 0;
-        if (d > (pat == 9 ? 7 : k)) continue;
+        if (d > (pat == 9 ? 7 : pat == 11 ? 5 : k)) continue;
         switch (pat) {
             case 0: keep = 1; break;
             case 1: keep = d != 0; break;
@@ -76,6 +76,7 @@ static void op_set(const McArg *a) {
             case 8: keep = (d == 1 || d == 3) && k >= 3; break;                                         // nested donuts
             case 9: keep = d == 1 || d == 3 || ((d == 5 || d == 7) && i % 3 == 0); break;               // nested donuts + scattered isolated cells
             case 10: keep = d == 0 || d == 2 || d == 4; if (k < 4) keep = 0; break;                      // island in a donut hole in a donut hole
+            case 11: keep = d == 1 || d == 3 || d == 5; break;                                            // three nested donuts around one hole
         }
         if (keep) set[ns++] = bc[i];
     }
@@ -312,8 +313,96 @@ static void op_bad(const McArg *a) {
     destroyLinkedMultiPolygon(&out);
     if (lg_live || lg_errors) mc_fail("after destroyLinkedMultiPolygon %ld blocks remain allocated, %ld double/foreign frees (set with %" PRIx64 " planted)", lg_live, lg_errors, bad);
 }
-const McOp MC_OPS[] = {{"set", "hii", op_set}, {"polar", "hii", op_polar}, {"bad", "hiii", op_bad}};
-const int MC_NOPS = 3;
+// band(res, latmax, lngmax, m): all cells of resolution res (<= 2) whose centre has |lat| < latmax deg and |lng - lng0| < lngmax deg (a set
+// that spans far more than 180 degrees of longitude but reaches neither a pole nor -- for lng0 = 0 -- the antimeridian), minus m isolated
+// interior cells. Too wide for a chart, so the oracle is structural: success, one polygon, 1 + m loops, every loop with >= 3 vertices,
+// destroy empties the ledger
+static void op_band(const McArg *a) {
+    int res = (int)a[0].i, m = (int)a[3].i;
+    double latmax = a[1].i * M_PI / 180, lngmax = (a[2].i % 1000) * M_PI / 180, lng0 = (a[2].i / 1000) * M_PI / 180;
+    if (res < 0 || res > 2) return;
+    U64Vec f = {0}, s = {0};
+    dom_full(res, &f);
+    for (size_t i = 0; i < f.n; i++) {
+        LatLng c;
+        if (cellToLatLng(f.v[i], &c)) continue;
+        if (fabs(c.lat) < latmax && fabs(geo_wrap(c.lng - lng0)) < lngmax) uv_push(&s, f.v[i]);
+    }
+    uv_free(&f);
+    if (s.n < 8) {
+        uv_free(&s);
+        return;
+    }
+    if (!G_init) og_init(&G, 1 << 16), G_init = 1;
+    // the set must be one component (BFS inside the set) -- otherwise the expectation below does not apply
+    uv_sortuniq(&s);
+    char *seen = calloc(s.n, 1);
+    size_t *stack = malloc(s.n * sizeof *stack), sp = 0, reached = 0;
+    stack[sp++] = 0, seen[0] = 1;
+    while (sp) {
+        size_t i = stack[--sp];
+        reached++;
+        uint64_t nb[8];
+        int k = og_nbrs(&G, s.v[i], nb);
+        for (int q = 0; q < k; q++) {
+            uint64_t *hit = bsearch(&nb[q], s.v, s.n, 8, uv_cmp);
+            if (hit && !seen[hit - s.v]) seen[hit - s.v] = 1, stack[sp++] = hit - s.v;
+        }
+    }
+    int connected = reached == s.n;
+    // remove m isolated interior cells (all six neighbours in the set, no two removed cells adjacent)
+    int removed = 0;
+    uint64_t rem[16];
+    for (size_t i = s.n / 3; i < s.n && removed < m; i += 7) {
+        uint64_t nb[8];
+        int k = og_nbrs(&G, s.v[i], nb), ok = k == 6;
+        for (int q = 0; q < k && ok; q++) {
+            ok = bsearch(&nb[q], s.v, s.n, 8, uv_cmp) != NULL;
+            for (int w = 0; w < removed && ok; w++) ok = nb[q] != rem[w];
+        }
+        for (int w = 0; w < removed && ok; w++) ok = s.v[i] != rem[w];
+        if (ok) rem[removed++] = s.v[i];
+    }
+    uint64_t *set = malloc(s.n * 8);
+    int ns = 0;
+    for (size_t i = 0; i < s.n; i++) {
+        int drop = 0;
+        for (int w = 0; w < removed; w++) drop |= s.v[i] == rem[w];
+        if (!drop) set[ns++] = s.v[i];
+    }
+    free(seen), free(stack);
+    lg_reset();
+    lg_arm(0, 0, 0);
+    LinkedGeoPolygon out;
+    memset(&out, 0, sizeof out);
+    mc_trans(2);
+    mc_nontrivial();
+    H3Error e = cellsToLinkedMultiPolygon(set, ns, &out);
+    if (e) {
+        if (lg_live || lg_errors) mc_fail("cellsToLinkedMultiPolygon returned %d and left %ld blocks allocated", e, lg_live);
+        else if (connected) mc_fail("cellsToLinkedMultiPolygon returned %d for %d distinct valid res-%d cells forming one band |lat|<%ld, |lng-%ld|<%ld degrees with %d single-cell holes (no pole, %s)", e, ns, res, (long)a[1].i, (long)(a[2].i / 1000), (long)(a[2].i % 1000), removed, a[2].i / 1000 ? "crossing the antimeridian" : "not touching the antimeridian");
+    } else {
+        int npoly = 0, nloops = 0, small = 0;
+        for (LinkedGeoPolygon *p = &out; p; p = p->next) {
+            if (!p->first) break;
+            npoly++;
+            for (LinkedGeoLoop *l = p->first; l; l = l->next) {
+                nloops++;
+                int nv = 0;
+                for (LinkedLatLng *q = l->first; q; q = q->next) nv++;
+                small |= nv < 3;
+            }
+        }
+        if (connected && (npoly != 1 || nloops != 1 + removed || small))
+            mc_fail("band set (%d cells, one component, %d single-cell holes): %d polygons with %d loops in total (expected 1 polygon, %d loops)%s", ns, removed, npoly, nloops, 1 + removed, small ? ", a loop with < 3 vertices" : "");
+        destroyLinkedMultiPolygon(&out);
+        if (!mc_w->cur_failed && (lg_live || lg_errors)) mc_fail("after destroyLinkedMultiPolygon %ld blocks remain allocated, %ld double/foreign frees", lg_live, lg_errors);
+    }
+    free(set);
+    uv_free(&s);
+}
+const McOp MC_OPS[] = {{"set", "hii", op_set}, {"polar", "hii", op_polar}, {"bad", "hiii", op_bad}, {"band", "iiii", op_band}};
+const int MC_NOPS = 4;
 static U64Vec g_dom;
 static int g_kmax;
 static void ph_sets(void *u) {
@@ -324,13 +413,38 @@ static void ph_sets(void *u) {
         int res = spec_res(h), kmax = res == 0 ? 1 : res == 1 ? 2 : g_kmax;
         mc_states(1);
         for (int k = 0; k <= kmax; k++)
-            for (int pat = 0; pat <= 10; pat++) {
+            for (int pat = 0; pat <= 11; pat++) {
                 if (k == 0 && pat) continue;
                 if (pat == 4 && res < 2) continue;
+                if (pat == 11) continue;  // driven by ph_nest3
                 if ((pat == 8 || pat == 9) && (k != 3 || res < 2)) continue;
                 if (pat == 10 && (k != 4 || res < 2)) continue;
                 MC_RUN(OP_SET, H(h), I(k), I(pat));
             }
+    }
+}
+static void ph_band(void *u) {
+    static const int lats[] = {25, 50}, lngs[] = {100, 150};
+    uint64_t idx = 0;
+    for (int res = 0; res <= 2; res++)
+        for (int li = 0; li < 2; li++)
+            for (int gi = 0; gi < 2; gi++)
+                for (int l0 = 0; l0 <= 180; l0 += 90)
+                    for (int m = 0; m <= 3; m += (m ? 2 : 1), idx++) {
+                        if (!mc_mine(idx)) continue;
+                        if (mc_expired()) return;
+                        MC_RUN(OP_BAND, I(res), I(lats[li]), I(lngs[gi] + 1000 * l0), I(m));
+                    }
+}
+// triple nesting (patterns 10 and 11 need k = 4 / rings to 5): a thinned set of origins in the quick tier
+static void ph_nest3(void *u) {
+    uint64_t idx = 0;
+    for (size_t i = 0; i < g_dom.n; i += (mc_thorough ? 1 : 3), idx++) {
+        if (!mc_mine(idx)) continue;
+        if (mc_expired()) return;
+        if (spec_res(g_dom.v[i]) < 2) continue;
+        MC_RUN(OP_SET, H(g_dom.v[i]), I(4), I(10));
+        MC_RUN(OP_SET, H(g_dom.v[i]), I(5), I(11));
     }
 }
 static void ph_bad(void *u) {
@@ -379,5 +493,7 @@ int main(int argc, char **argv) {
     mc_phase("set catalogue", ph_sets, NULL);
     mc_phase("sets around the poles (error clause)", ph_polar, NULL);
     mc_phase("sets with a planted non-cell (error clause)", ph_bad, NULL);
+    mc_phase("wide bands at resolutions 0-2", ph_band, NULL);
+    mc_phase("triple nesting from thinned origins", ph_nest3, NULL);
     return mc_finish();
 }
